@@ -10,6 +10,9 @@ import time
 import traceback
 
 VERIF = os.path.dirname(os.path.dirname(os.path.abspath(__file__)))
+# evidence/ and replays/ normally live in /verif; the seeded-change harness redirects them so that a run against a
+# deliberately broken scratch copy never overwrites the evidence of the real tree
+OUT = os.environ.get("VERIF_EVIDENCE_DIR") or VERIF
 
 _worker_cache = {}
 
@@ -167,6 +170,9 @@ def main(argv=None):
         assumed_used.update(out.get("assumed_used", []))
         if task["kind"] == "bounded":
             b = out["bounded"]
+            if b.get("error"):
+                broken.append(f"bounded monitor {task.get('label')}: {b['error']}")
+                continue
             bounded_rows.append(b)
             for v in b.get("violations", []):
                 violations.append(dict(name=f"bounded:{task['label']}/{v['what']}", replay=v.get("replay"), bounded=True, what=v["what"]))
@@ -207,7 +213,7 @@ def main(argv=None):
             row["wall_s"] = max(row["wall_s"], round(out["wall_s"], 2))
 
     # ---- violations vs known findings
-    os.makedirs(os.path.join(VERIF, "replays", args.prop), exist_ok=True)
+    os.makedirs(os.path.join(OUT, "replays", args.prop), exist_ok=True)
     real_violations = []
     for v in violations:
         kf = match_known(v, known)
@@ -221,7 +227,7 @@ def main(argv=None):
             seen_kf.add(kf["id"])
             lines.append(f"KNOWN-FINDING: property={args.prop} {kf['what']}")
     for k, v in enumerate(real_violations):
-        path = os.path.join(VERIF, "replays", args.prop, f"violation_{k}.json")
+        path = os.path.join(OUT, "replays", args.prop, f"violation_{k}.json")
         rep = v.get("replay") or {}
         reproduced = bool(rep.get("reproduced")) if isinstance(rep, dict) else False
         doc = dict(property=args.prop, obligation=v["name"], solver_status=v.get("status", "bounded-monitor"),
@@ -251,7 +257,8 @@ def main(argv=None):
     slowest.sort(reverse=True)
     ev = build_evidence(args, P, seed, wall, n_obl, n_dis, by_backend, solver_s, samples, slowest[:5], canaries, fn_rows,
                         bounded_rows, undecided, broken, real_violations, known_hits, sorted(assumed_used))
-    with open(os.path.join(VERIF, "evidence", f"{args.prop}.json"), "w") as f:
+    os.makedirs(os.path.join(OUT, "evidence"), exist_ok=True)
+    with open(os.path.join(OUT, "evidence", f"{args.prop}.json"), "w") as f:
         json.dump(ev, f, indent=1, default=str)
     for ln in lines:
         print(ln)
